@@ -365,6 +365,30 @@ class Path:
             return Obligation(name, "proved", dt + dt2, "cvc5", level=level)
         if res == "sat":
             return Obligation(name, "failed", dt + dt2, "cvc5", detail=detail, level=level)
+        # patience stage: budgets are wall-clock, so a busy machine can turn a 10-second proof
+        # into `unknown`.  Before giving up, the first few such obligations of a function are
+        # retried once with three times the budget (z3 with another seed, then cvc5).
+        if len(self.degraded) > 1 and self.degraded[1] < 3 and not self.degraded[0]:
+            self.degraded[1] += 1
+            t1 = time.time()
+            s3 = z3.Solver()
+            s3.set("timeout", 3 * self.prove_timeout_ms)
+            s3.set("random_seed", 23)
+            for a_ in s2.assertions():
+                s3.add(a_)
+            r3 = s3.check()
+            self.n_queries += 1
+            if r3 == z3.unsat:
+                self.solver_seconds += time.time() - t1
+                return Obligation(name, "proved", dt + dt2 + time.time() - t1, "z3+aux(patience)", level=level)
+            if r3 == z3.unknown:
+                res, detail = cvc5_check(s2, timeout_s=max(15, 3 * self.prove_timeout_ms // 2000))
+                self.solver_seconds += time.time() - t1
+                if res == "unsat":
+                    return Obligation(name, "proved", dt + dt2 + time.time() - t1, "cvc5(patience)", level=level)
+                if res == "sat":
+                    return Obligation(name, "failed", dt + dt2 + time.time() - t1, "cvc5", detail=detail, level=level)
+            dt2 += time.time() - t1
         return Obligation(name, "unknown", dt + dt2, "z3+cvc5", detail=detail, level=level)
 
     def canary(self, name):
